@@ -35,7 +35,7 @@ add("C05", "exploration",
 add("C06", "exploration",
     "differential runtime monitor: random block trees delivered in random parent-first orders to the real node and to the reference fork-choice/UTXO model; tip + full UTXO dump compared after every delivery",
     "Held on the delivery histories observed: thousands of random block trees (forks from the tip and from below it, depth up to ~16, equal-work ties, branches invalid only at connect time at random positions with descendants, "
-    "check-invalid blocks, children offered before parents, redeliveries, Idle/HurryUp between deliveries, plain/compressed records, mainnet/testnet rule sets); reference UTXO is recomputed by replay on every reorganisation.",
+    "check-invalid blocks, children offered before parents, redeliveries, Idle/HurryUp between deliveries, plain/compressed records, mainnet/testnet rule sets); reference UTXO is recomputed by replay on every reorganisation. One configuration hands the blocks over header-first on a reused btc.Block object, as client/network + client/main do (PreCheckBlock, AcceptHeader, PostCheckBlock, CommitBlock), the others through CheckBlock + AcceptBlock.",
     "Oracle = /verif/ref/refchain (most cumulative work = sum 2^256/(target+1), first seen wins ties, invalid-at-connect branches excluded with descendants; work kept with 64 fractional bits because the simulated targets are far easier than any real one). Per-block work differs only in the testnet-work histories (behind one retarget: minimum-difficulty blocks carry 1/4 of a real block's work; random trees plus duels of a light against a heavy branch, shorter-but-heavier and longer-but-lighter both counted in the evidence); elsewhere all blocks carry the same difficulty.",
     "DESIGN.md §3 C06")
 
